@@ -127,6 +127,11 @@ type memoryDatabase struct {
 
 	readonly atomic.Bool
 	lock     sync.RWMutex // lock of create metric store
+
+	// readers of write buffers(query result sets), buffers are released after close and last reader done.
+	readers  int
+	closed   bool
+	refMutex sync.Mutex
 }
 
 // lastCreatedTime keeps the created time of the latest memory database.
@@ -492,12 +497,43 @@ func (md *memoryDatabase) CreatedTime() int64 {
 
 // Close releases resources for current memory database.
 func (md *memoryDatabase) Close() error {
+	md.refMutex.Lock()
+	md.closed = true
+	noReaders := md.readers == 0
+	md.refMutex.Unlock()
+
+	if noReaders {
+		md.releaseBuffers()
+	}
+	md.indexDB.Cleanup(md)
+	return nil
+}
+
+// releaseBuffers marks write buffers dirty, they can be collected(unmapped).
+func (md *memoryDatabase) releaseBuffers() {
 	md.fieldWriteStores.Range(func(key, value any) bool {
 		(value.(DataPointBuffer)).Release()
 		return true
 	})
-	md.indexDB.Cleanup(md)
-	return nil
+}
+
+// retain marks a reader(query result set) is reading write buffers.
+func (md *memoryDatabase) retain() {
+	md.refMutex.Lock()
+	md.readers++
+	md.refMutex.Unlock()
+}
+
+// release marks a reader done, releases write buffers if memory database closed(flushed) and no reader.
+func (md *memoryDatabase) release() {
+	md.refMutex.Lock()
+	md.readers--
+	needRelease := md.closed && md.readers == 0
+	md.refMutex.Unlock()
+
+	if needRelease {
+		md.releaseBuffers()
+	}
 }
 
 func (md *memoryDatabase) Uptime() time.Duration {
